@@ -48,12 +48,15 @@ def extract(g, X):
     def comment():
         b = X.fn_body(lexer, "next_word")
         m = re.search(r"while\s+self\.buf\.get\(pos\)\s*==\s*Some\(&(" + X.LIT + r")\)", b)
-        e = re.search(r"position\(\|&b\|\s*b\s*==\s*(" + X.LIT + r")\)", b)
+        e = re.search(r"position\(\|&b\|\s*((?:b\s*==\s*" + X.LIT + r"\s*(?:\|\|\s*)?)+)\)", b)
+        ends = [X.lit(t) for t in re.findall(r"b\s*==\s*(" + X.LIT + r")", e.group(1))]
+        if not re.search(r"None\s*=>\s*pos\s*=\s*self\.buf\.len\(\)", b):
+            raise ValueError("an unterminated comment no longer runs to the end of the buffer")
         n = re.search(r"self\.buf\[pos\]\s*==\s*(" + X.LIT + r")", b)
         pair = re.search(r'slice\s*==\s*b"(..)"\s*\|\|\s*slice\s*==\s*b"(..)"', b)
-        return (str(X.lit(m.group(1))), str(X.lit(e.group(1))), str(X.lit(n.group(1))),
+        return (str(X.lit(m.group(1))), cl(ends), str(X.lit(n.group(1))),
                 cl([ord(pair.group(1)[0]), ord(pair.group(2)[0])]))
-    g.attempt([("font_comment_start", "N"), ("font_comment_end", "N"), ("font_name_start", "N"), ("font_double_delims", "list N")],
+    g.attempt([("font_comment_start", "N"), ("font_comment_ends", "list N"), ("font_name_start", "N"), ("font_double_delims", "list N")],
               "font: lexer/mod.rs:Lexer::next_word", comment)
 
     # ---- lexer/str.rs: hex strings -----------------------------------------------------------------------
